@@ -8,6 +8,7 @@ import (
 	"fmt"
 	mrand "math/rand"
 	"reflect"
+	"runtime"
 	"strconv"
 	"strings"
 	"sync"
@@ -599,6 +600,22 @@ func TestC23(t *testing.T) {
 		parallelDo(len(cases), 12, func(i int) { runC12(sink, r.Seed*7121+int64(i)+1, cases[i]) })
 		c12WorldDone = nil
 		r.Extra["adversarial_histories_scanned"] = len(cases)
+	}
+	// one node in two swaps at once, in opposite roles, with its retransmitter running in real time (5 ms)
+	{
+		swap.VerifSetRetryDur(5 * time.Millisecond)
+		type ab struct{ a, b string }
+		combos := []ab{{"btc", "btc"}, {"btc", "lbtc"}, {"lbtc", "btc"}, {"lbtc", "lbtc"}}
+		parallelDo(len(combos)*r.N(1, 10), 4, func(i int) { runC23TwoRoles(r, r.Seed*2311+int64(i)+1, combos[i%len(combos)].a, combos[i%len(combos)].b) })
+		// the same on a single-CPU machine, one world after the other: whatever the process shares between the
+		// messages it encodes (pools, scratch buffers) is shared by consecutive messages of this one node
+		prev := runtime.GOMAXPROCS(1)
+		parallelDo(len(combos)*r.N(1, 4), 1, func(i int) { runC23TwoRoles(r, r.Seed*2333+int64(i)+1, combos[i%len(combos)].a, combos[i%len(combos)].b) })
+		runtime.GOMAXPROCS(prev)
+		swap.VerifSetRetryDur(time.Hour)
+		if n, _ := r.Extra["two_role_worlds_with_coop_close"].(int); n < 2 {
+			r.Inconclusive(fmt.Sprintf("only %d two-role worlds reached the coop_close", n))
+		}
 	}
 	ms, _ := r.Extra["messages_scanned"].(int)
 	cc, _ := r.Extra["allowed_coop_close_disclosures"].(int)
